@@ -312,6 +312,50 @@ class Model(object):
         s = ftrim(fpad(text, n)) if self.driver != "py" else text
         return self.expect((len(s) * 1000 + sum(ord(c) for c in s),))
 
+    def op_str_ptr_in(self, n, _b, text):
+        s = ftrim(fpad(text, n)) if self.driver != "py" else text
+        return self.expect((len(s) * 1000 + sum(ord(c) for c in s) + 7,))
+
+    def op_str_val_in(self, n, _b, text):
+        s = ftrim(fpad(text, n)) if self.driver != "py" else text
+        return self.expect((len(s) * 1000 + sum(ord(c) for c in s) + 9,))
+
+    def op_char_ret_len(self, n, _b, _t):
+        n = min(max(n, 0), 60)
+        if self.driver == "py":
+            return self.expect((n, pattern(n)))
+        return self.expect((30, fpad(pattern(n), 30)))
+
+    def op_char_ret_null(self, n, _b, _t):
+        if n < 0:
+            if self.driver == "py":
+                return self.expect(None)  # None or "" -- C03's business
+            return self.expect((0, ""))  # a NULL result becomes a zero-length string
+        n = min(n, 60)
+        return self.expect((n, pattern(n)))
+
+    def op_vec_iota_d(self, n, _b, _t):
+        got = [i + 0.5 for i in range(5)]
+        arr = [-7.0] * n
+        for i in range(min(n, 5)):
+            arr[i] = got[i]
+        return self.expect((n, int(sum(arr) * 2)))
+
+    def op_box_release(self, s, _b, _t):
+        """C only: release a Box through its capsule (the class has no wrapped destructor)."""
+        if self.driver != "c":
+            raise Invalid("c only")
+        hd = self.handle(s, self.bx)
+        if hd["released"]:
+            return self.expect(())
+        o = self.objs[hd["oid"]]
+        if not o["alive"]:
+            raise Invalid("dangling")
+        if o["owner"] == "caller":
+            o["alive"] = False
+        hd["released"] = True
+        return self.expect(())
+
     def op_str_out(self, cap, n, _t):
         if self.driver == "py":
             return self.expect((n, pattern(n)))
@@ -474,7 +518,8 @@ OPS_COMMON = ["item_default", "item_val", "item_delete", "item_value", "item_set
               "char_out", "char_ret", "char_inout",
               "vec_sum", "vec_iota", "vec_inc", "vec_alloc", "vec_ret", "vec_str_count",
               "arr_new", "arr_lib", "arr_new_alloc", "cap_delete", "cap_scope",
-              "arr_pat", "arr_sum", "char_grow", "ref_item", "vec_ret_d", "char_arr"]
+              "arr_pat", "arr_sum", "char_grow", "ref_item", "vec_ret_d", "char_arr",
+              "str_ptr_in", "str_val_in", "char_ret_len", "char_ret_null", "vec_iota_d"]
 
 TEXTS = ["", " ", "a", "hello", "two words", "  lead", "trail  ", "exactly-twenty-chars", "x" * 40,
          "MiXeD 123 !?", "tab-less ~ text", "ends with blank "]
@@ -512,7 +557,15 @@ def gen_op(rng, model, enabled, uniq):
     if name in ("str_val", "str_owned", "char_ret", "vec_sum", "vec_iota", "vec_inc", "vec_alloc", "vec_ret",
                 "arr_new_alloc", "cap_scope", "arr_sum", "vec_ret_d"):
         return [name, lengths(rng)]
-    if name == "str_in":
+    if name == "char_ret_null":
+        return [name, rng.choice([-1, -1, 0, 3, 17])]
+    if name == "char_ret_len":
+        return [name, rng.choice([0, 1, 7, 29, 30])]
+    if name == "vec_iota_d":
+        return [name, lengths(rng)]
+    if name == "box_release":
+        return [name, s]
+    if name in ("str_in", "str_ptr_in", "str_val_in"):
         text = rng.choice(TEXTS)
         return [name, rng.choice([len(text), len(text) + 3, max(0, len(text) - 2), lengths(rng)]), 0, text]
     if name == "str_out":
@@ -554,16 +607,16 @@ def gen_op(rng, model, enabled, uniq):
 
 
 LEAKABLE = ["item_value", "item_label", "use_item", "sum_items", "box_value", "str_ref", "str_val", "str_lib",
-            "str_in", "str_out", "str_inout", "char_out", "char_ret", "vec_sum", "vec_iota", "vec_alloc", "vec_ret",
+            "str_in", "str_ptr_in", "str_val_in", "char_ret_len", "str_out", "str_inout", "char_out", "char_ret", "vec_sum", "vec_iota", "vec_alloc", "vec_ret",
             "arr_lib", "arr_sum", "char_arr", "bad_vec_sum", "bad_arg", "bad_arr_sum"]
 PY_ONLY = ["box_delete", "bad_vec_sum", "bad_arg", "nomem", "bad_arr_sum"] + ["leak_" + n for n in LEAKABLE]
 # char_inout: the Python wrapper hands the str object's own UTF-8 buffer to the library, which
 # upper-cases it in place and thereby corrupts interned strings of the interpreter (a C03 defect;
 # it would make later *values* wrong, so the op is not generated for Python)
-NOT_PY = ["copy_item", "vec_inc", "vec_str_count", "cap_delete", "cap_scope", "char_inout", "char_grow", "vec_ret_d"]
+NOT_PY = ["copy_item", "vec_inc", "vec_str_count", "cap_delete", "cap_scope", "char_inout", "char_grow", "vec_ret_d", "vec_iota_d"]
 
 
-C_ONLY = ["item_release", "cstr_ref", "cstr_lib", "cstr_owned", "cstr_in", "cstr_out", "cstr_inout"]
+C_ONLY = ["item_release", "box_release", "cstr_ref", "cstr_lib", "cstr_owned", "cstr_in", "cstr_out", "cstr_inout"]
 
 
 C_SUBJECT_OPS = ["char_out", "char_ret", "char_inout", "char_grow", "char_arr", "arr_lib"]
